@@ -136,4 +136,21 @@ PROPS = {
             "boundary rules of one port are distinct objects",
         ],
     },
+    "C23": {
+        "category": "proof",
+        "harness_modes": ["crosscheck"],
+        "explanation": "The underlying byte stream is specified only by the chunking contract (read returns ANY non-empty prefix of what was asked for, nothing only at end "
+        "of data), so what is proved holds for every chunking. TellableStreamWrapper.read returns exactly the requested bytes (or all that is left) and keeps position equal "
+        "to the underlying cursor; SeekableStreamReaderWrapper.seek leaves wrapper and stream at the requested offset or raises ReadError (backward, or data ends first); "
+        "write() copies exactly bufsize bytes or raises ReadError and terminates (decreases clause); copyfileobj copies exactly `length` bytes for every buffer size, the "
+        "remainder block included; FileStreamReaderWrapper.read (non-sparse member) returns exactly min(size, remaining) bytes of the member or raises — never a short block "
+        "without error. Two genuine defects found by these obligations were repaired in /repo (fix: commits 8bf7c1a, c23a6af). NOT proved: the header codec inherited "
+        "from CPython's tarfile, compression wrappers, sparse members, AioTarStream.__anext__'s error mapping (recorded finding KF-C23-header-boundary-truncation), "
+        "the writer side beyond copyfileobj; these are exercised only by the bounded run-time round trips against CPython's tarfile.",
+        "assumptions": [
+            "the chunking contract on StreamWrapper.read/write is the environment assumption (final: assumed for every implementation)",
+            "bytes are modelled as integer sequences; size=None (read to end) variants of TellableStreamWrapper.read/copyfileobj are not covered",
+            "A-TARFILE header encode/decode, TarInfo._block and error classes are CPython's (trusted)",
+        ],
+    },
 }
